@@ -18,6 +18,9 @@ HT_TOKEN = {
     HandshakeType.compressed_certificate: "CCERT", HandshakeType.certificate_status: "CSTAT",
 }
 HRR_RANDOM_PREFIX = bytes.fromhex("CF21AD74E59A6111BE1D8C021E65B891")
+# KeyUpdate(update_not_requested) = 18 00 00 01 00, split across a key change
+GLUE_HEAD = bytearray(b"\x18\x00")
+GLUE_REST = bytearray(b"\x00\x01\x00")
 
 
 def token(msg):
@@ -81,11 +84,11 @@ class Puppet(object):
         if self.plan is not None:
             # items after the last honest message are sent only once the puppet's own
             # handshake has finished (they belong to the open connection)
-            last = max([i for i, it in enumerate(self.plan) if it[0] == "h"] or [-1])
+            last = max([i for i, it in enumerate(self.plan) if it[0] in ("h", "glue")] or [-1])
             first_of_last = last
             if last >= 0:
                 k = self.plan[last][1]
-                first_of_last = min(i for i, it in enumerate(self.plan) if it == ("h", k))
+                first_of_last = min(i for i, it in enumerate(self.plan) if it[0] in ("h", "glue") and it[1] == k)
                 # copies of the last message after its first occurrence also wait
             self.tail = self.plan[first_of_last + 1:]
             self.plan = self.plan[:first_of_last + 1]
@@ -124,7 +127,7 @@ class Puppet(object):
         that follows them, so that they sit exactly where the script puts them)"""
         upto = -1
         for i, it in enumerate(self.plan):
-            if it[0] == "h":
+            if it[0] in ("h", "glue"):
                 if it[1] > self.nprod:
                     break
                 upto = i
@@ -134,6 +137,32 @@ class Puppet(object):
 
     def _emit(self, it, queued):
         """generator sending one plan item; queued: we are inside a _queue_message flight"""
+        if it[0] == "glue":
+            # the honest message k followed IN THE SAME RECORD by the first bytes of a further handshake
+            # message (a KeyUpdate header); the rest of that message goes out after the handshake
+            msg, via = self.produced[it[1]]
+            self.sent.append("SPAN")
+            honest = msg.write()
+            if queued:
+                self.orig_queue(msg)
+                self.conn._buffer += GLUE_HEAD
+            else:
+                if self.conn._buffer_content_type is not None:
+                    for r in self.orig_flush():
+                        yield r
+                self.conn._handshake_hash.update(honest)
+                for r in self.orig_send(Message(ContentType.handshake, bytearray(honest) + GLUE_HEAD), True, False):
+                    yield r
+            self.tail.insert(0, ("raw", GLUE_REST))
+            return
+        if it[0] == "raw":
+            self.sent.append("RAW")
+            if self.conn._buffer_content_type is not None:
+                for r in self.orig_flush():
+                    yield r
+            for r in self.orig_send(Message(ContentType.handshake, bytearray(it[1])), True, False):
+                yield r
+            return
         if it[0] == "h":
             msg, via = self.produced[it[1]]
         else:
@@ -199,7 +228,7 @@ class Puppet(object):
         if self.plan:
             while self.plan:
                 it = self.plan.pop(0)
-                if it[0] == "h" and it[1] not in self.produced:
+                if it[0] in ("h", "glue") and it[1] not in self.produced:
                     self.problems.append("plan item %r never produced" % (it,))
                     continue
                 for r in self._emit(it, False):
@@ -221,6 +250,8 @@ def plan_from_script(n, script):
             items.insert(k - 1, ("fab", t))
         elif op == "cpy":
             items.insert(k - 1, items[t - 1])
+        elif op == "glue":
+            items[k - 1] = ("glue", items[k - 1][1]) if items[k - 1][0] == "h" else items[k - 1]
         else:
             raise ValueError(op)
     return items
